@@ -704,6 +704,14 @@ theorem spake_inv_cast {z : ℤ} (hz : (z:F) ≠ 0) : ((spake_inv z : ℤ) : F) 
     rw [← pow_succ, show Q - 2 + 1 = Q - 1 by have := Q_gt_two; omega]; exact h1
   exact eq_inv_of_mul_eq_one_left h2
 
+/-- `inv` returns the canonical representative of the field inverse -/
+theorem inv_correct {z : ℤ} (hz : (z:F) ≠ 0) :
+    0 ≤ spake_inv z ∧ spake_inv z < Q ∧ ((spake_inv z : ℤ) : F) * (z:F) = 1 := by
+  refine ⟨?_, ?_, ?_⟩
+  · simp only [spake_inv]; exact Int.emod_nonneg _ Q_ne_zero_int
+  · simp only [spake_inv]; exact Int.emod_lt_of_pos _ Q_pos_int
+  · rw [spake_inv_cast hz]; exact inv_mul_cancel₀ hz
+
 theorem xform_extended_correct {X Y Z T : ℤ} (h : Valid X Y Z T) :
     let r := spake_xform_extended_to_affine X Y Z T
     0 ≤ r.1 ∧ r.1 < Q ∧ 0 ≤ r.2 ∧ r.2 < Q ∧ ((r.1:F), (r.2:F)) = pt X Y Z := by
@@ -736,6 +744,7 @@ end Main2
 #print axioms nonunified_correct
 #print axioms xform_affine_correct
 #print axioms is_extended_zero_correct
+#print axioms inv_correct
 #print axioms xform_extended_correct
 #print axioms pt_oncurve
 #print axioms enc_injective_core
